@@ -822,7 +822,7 @@ func runC02(c *Ctx) {
 	c02CheckFoi(c)
 	nRand := c.Pick(110, 6000)
 	nShape := c.Pick(45, 2800)
-	nFam := c.Pick(10, 500) // per family (twobox, clamp, shadow, anyarg, retann, pipe)
+	nFam := c.Pick(10, 500) // per family (twobox, clamp, shadow, anyarg, retann, pipe, match)
 	nHazard := c.Pick(4, 40)
 	c02MaxSites = c.Pick(4, 6) // quick: <= 2^4 variants per program, thorough: <= 2^6
 	var progs []*c02Prog
@@ -852,8 +852,8 @@ func runC02(c *Ctx) {
 	for i := 0; i < nHazard; i++ {
 		jobs = append(jobs, job{"hazard", rng.Fork(), len(jobs)})
 	}
-	for i := 0; i < 6*nFam; i++ {
-		jobs = append(jobs, job{[]string{"twobox", "clamp", "shadow", "anyarg", "retann", "pipe"}[i%6], rng.Fork(), len(jobs)})
+	for i := 0; i < 7*nFam; i++ {
+		jobs = append(jobs, job{[]string{"twobox", "clamp", "shadow", "anyarg", "retann", "pipe", "match"}[i%7], rng.Fork(), len(jobs)})
 	}
 	if c.Replay == "" {
 		progs = make([]*c02Prog, len(jobs))
@@ -899,6 +899,9 @@ func runC02(c *Ctx) {
 					p.initSites(j.rng)
 				case "pipe":
 					p = c02FamPipe(j.rng, j.id)
+					p.initSites(j.rng)
+				case "match":
+					p = c02FamMatch(j.rng, j.id)
 					p.initSites(j.rng)
 				default:
 					p = c02GenShapeProg(j.rng, j.id, c.Thorough())
